@@ -175,7 +175,10 @@ def instances(tier):
     out.append(dict(h='block', p=dict(txshapes=[])))
     out.append(dict(h='block', p=dict(txshapes=[t_a])))
     out.append(dict(h='block', p=dict(txshapes=[t_a, t_w])))
+    out.append(dict(h='block', p=dict(txshapes=[t_w])))            # only the first transaction carries a witness
+    out.append(dict(h='block', p=dict(txshapes=[t_w, t_a])))
     if tier != 'quick':
         out.append(dict(h='block', p=dict(txshapes=[t_w, t_2, t_a])))
+        out.append(dict(h='block', p=dict(txshapes=[t_a, t_w, t_a])))
         out.append(dict(h='block', p=dict(txshapes=[t_2, t_2])))
     return out
